@@ -374,13 +374,122 @@ def mk_set_index(L, nparts):
     return Obligation(f"set_index[len<={L},parts<={nparts}]", setup, run)
 
 
+def _truthful_if_known(out, want, what):
+    """unknown divisions make no claim; known ones must be truthful. Rows must equal pandas either way."""
+    if out.known_divisions:
+        _truthful(out, want, what)
+    else:
+        got = out.compute(scheduler="sync")
+        if not got.equals(want):
+            raise Violation(f"{what}: rows differ from pandas ({got.index.tolist()} vs {want.index.tolist()})")
+
+
+def mk_concat(maxlen):
+    """dd.concat of two frames with known divisions whose index ranges are separated, TOUCH (last label of the first == first label of the
+    second), or overlap; partition counts 1..2 each; interleave_partitions on/off. Known result divisions must be truthful (half-open
+    partitions!), rows equal pd.concat, and a label lookup of the boundary label returns every row carrying it. Enumerated."""
+    def setup(e):
+        la = 1 + e.choice("len_a", maxlen)
+        lb = 1 + e.choice("len_b", maxlen)
+        gap = e.pick("gap", (-1, 0, 1))          # first label of b relative to the last label of a
+        na = 1 + e.choice("nparts_a", 2)
+        nb = 1 + e.choice("nparts_b", 2)
+        inter = e.flag("interleave")
+        return la, lb, gap, na, nb, inter
+
+    def run(e, la, lb, gap, na, nb, inter):
+        ia = list(range(10, 10 + la))
+        ib = list(range(ia[-1] + gap, ia[-1] + gap + lb))
+        A = pd.DataFrame({"x": range(la)}, index=pd.Index(ia, dtype="int64"))
+        B = pd.DataFrame({"x": range(100, 100 + lb)}, index=pd.Index(ib, dtype="int64"))
+        da_, db_ = dd.from_pandas(A, npartitions=na), dd.from_pandas(B, npartitions=nb)
+        what = f"concat(index {ia} in {da_.npartitions} partitions, index {ib} in {db_.npartitions} partitions, interleave_partitions={inter})"
+        try:
+            out = dd.concat([da_, db_], interleave_partitions=inter)
+        except ValueError:
+            return "refused"          # overlapping inputs without interleave_partitions may be refused
+        want = pd.concat([A, B])
+        if out.known_divisions:
+            want_sorted = want.sort_index(kind="stable")
+            got = out.compute(scheduler="sync")
+            e.check(sorted(zip(got.index, got.x)) == sorted(zip(want.index, want.x)), f"{what}: rows differ from pandas")
+            d = out.divisions
+            low = out.optimize()
+            e.check(low.npartitions == len(d) - 1, f"{what}: {low.npartitions} partitions but divisions {d}")
+            for i in range(low.npartitions):
+                for x in low.get_partition(i).compute(scheduler="sync").index:
+                    ok = (d[i] <= x <= d[i + 1]) if i == low.npartitions - 1 else (d[i] <= x < d[i + 1])
+                    e.check(ok, f"{what}: partition {i} of divisions {d} holds index value {x}")
+            # (label lookups assume partitions that are sorted internally; interleaving OVERLAPPING inputs does not promise that and the
+            # property is about the divisions only)
+            for lab in ({ia[-1], ib[0]} if gap >= 0 else ()):
+                g = out.loc[lab].compute(scheduler="sync")
+                w = want_sorted.loc[[lab]]
+                e.check(sorted(g.x) == sorted(w.x), f"{what}: .loc[{lab}] returns rows {sorted(g.x)}, pandas {sorted(w.x)}")
+        else:
+            got = out.compute(scheduler="sync")
+            e.check(sorted(zip(got.index, got.x)) == sorted(zip(want.index, want.x)), f"{what}: rows differ from pandas")
+        return [None if x is None else int(x) for x in out.divisions]
+
+    return Obligation(f"concat_divisions[len<={maxlen}]", setup, run)
+
+
+def mk_repartition_pandas(L):
+    """dd.repartition(<pandas frame>, divisions) (FromPandasDivisions): unique index labels 10, 20, ...; divisions drawn from labels AND values
+    between labels; the reported divisions must be truthful and every row inside [divisions[0], divisions[-1]] kept. Enumerated."""
+    def setup(e):
+        n = 1 + e.choice("len", L)
+        nd = 2 + e.choice("ndiv", 3)
+        divs = []
+        prev = 0
+        for i in range(nd):
+            step = e.choice(f"d{i}", 4) + (0 if i == 0 else 1)
+            prev = prev + step
+            divs.append(prev)
+        series = e.flag("series")
+        return n, divs, series
+
+    def run(e, n, divs, series):
+        labels = [10 * (i + 1) for i in range(n)]
+        divs = [5 * d + 5 for d in divs]           # 5, 10, 15, ...: every second value is a label, the others lie between labels
+        df = pd.DataFrame({"x": range(n)}, index=pd.Index(labels, dtype="int64"))
+        obj = df.x if series else df
+        what = f"dd.repartition({'Series' if series else 'DataFrame'} with index {labels}, divisions={divs})"
+        try:
+            out = dd.repartition(obj, divs)
+        except ValueError:
+            return "refused"
+        if not (divs[0] <= labels[0] and labels[-1] <= divs[-1]):
+            return "divisions do not span the index (outside the documented use)"
+        e.check(tuple(out.divisions) == tuple(divs), f"{what}: reports divisions {out.divisions}")
+        want = obj[(obj.index >= divs[0]) & (obj.index <= divs[-1])]
+        inside_all = len(want) == n
+        got = out.compute(scheduler="sync")
+        if inside_all:
+            e.check(got.equals(want), f"{what}: rows differ from pandas ({got.index.tolist()} vs {want.index.tolist()})")
+        d = out.divisions
+        low = out.optimize()
+        e.check(low.npartitions == len(d) - 1, f"{what}: {low.npartitions} partitions but divisions {d}")
+        for i in range(low.npartitions):
+            for x in low.get_partition(i).compute(scheduler="sync").index:
+                ok = (d[i] <= x <= d[i + 1]) if i == low.npartitions - 1 else (d[i] <= x < d[i + 1])
+                e.check(ok, f"{what}: partition {i} of divisions {d} holds index value {x}")
+        for lab in labels:
+            if divs[0] <= lab <= divs[-1] and inside_all:
+                g = out.loc[lab].compute(scheduler="sync")
+                e.check(len(g) == 1, f"{what}: .loc[{lab}] finds {len(g)} rows")
+        return got.index.tolist()
+
+    return Obligation(f"repartition_pandas[len<={L}]", setup, run)
+
+
 def obligations(tier):
     obs = []
     if tier == "quick":
         for n in (1, 2, 3):
             obs.append(mk_loc_slice(n))
             obs.append(mk_partition_of(n))
-        obs += [mk_loc_element(3), mk_loc_list(2, 2), mk_loc_list(3, 2), mk_more_numeric(2, 5), mk_from_pandas(4), mk_set_index(4, 2)]
+        obs += [mk_loc_element(3), mk_loc_list(2, 2), mk_loc_list(3, 2), mk_more_numeric(2, 5), mk_from_pandas(4), mk_set_index(4, 2), mk_concat(3), mk_repartition_pandas(3)]
         for na in (2, 3):
             for nb in (2, 3):
                 obs.append(C44.mk_div(na, nb, False))
@@ -389,7 +498,7 @@ def obligations(tier):
         for n in (1, 2, 3, 4, 5):
             obs.append(mk_loc_slice(n))
             obs.append(mk_partition_of(n))
-        obs += [mk_loc_element(4), mk_loc_list(2, 3), mk_loc_list(3, 3), mk_loc_list(4, 2), mk_more_numeric(3, 8), mk_from_pandas(6), mk_set_index(5, 3)]
+        obs += [mk_loc_element(4), mk_loc_list(2, 3), mk_loc_list(3, 3), mk_loc_list(4, 2), mk_more_numeric(3, 8), mk_from_pandas(6), mk_set_index(5, 3), mk_concat(4), mk_repartition_pandas(5)]
         for na in (2, 3, 4):
             for nb in (2, 3, 4, 5):
                 for force in (False, True):
